@@ -800,6 +800,26 @@ func c06Generate(r *rng, tier string, sm *summary) []c06Case {
 		g.tag, g.val = 0, 0
 		add("repanic-wrap", "repanic-wrap", g.repanicWrap())
 	}
+	nSmall := nRegion / 3
+	for i := 0; i < nSmall; i++ {
+		g.tag, g.val = 0, 0
+		add("recover-stale", "recover-stale", g.recoverStale())
+		g.tag, g.val = 0, 0
+		if i%2 == 0 {
+			add("closure-lock", "closure-lock", g.closureLock())
+		}
+	}
+	// forward declaration order: main-stream tables in which a literal defers a named function or method
+	for i, n := 0, 0; i < 40*nRegion && n < nRegion; i++ {
+		g.tag, g.val = 0, 0
+		p := g.randProg(c06RandOpts{}, true)
+		if !c06MainOK(p) || !c06LitDefersNamed(p) {
+			continue
+		}
+		p.Fwd = true
+		n++
+		add("defer-forward-lit", "defer-forward-lit", p)
+	}
 	// random tables without the rules: whatever region they fall in is decided by the model
 	for i := 0; i < nRegion; i++ {
 		g.tag, g.val = 0, 0
@@ -823,6 +843,21 @@ func c06Generate(r *rng, tier string, sm *summary) []c06Case {
 	}
 	_ = fmt.Sprint
 	return cases
+}
+
+// c06LitDefersNamed: some function literal defers a named function or a method.
+func c06LitDefersNamed(p c06Prog) bool {
+	for _, f := range p.Fns {
+		if f.Kind != "lit" {
+			continue
+		}
+		for _, s := range f.Body {
+			if (s.K == "defer" || (s.K == "deferloop" && s.N > 0)) && p.Fns[s.F].Kind != "lit" {
+				return true
+			}
+		}
+	}
+	return false
 }
 
 // c06Sample returns k distinct indices of [0,n) in increasing order (all of them when k >= n).
